@@ -231,6 +231,23 @@ func (x *Exec) callFunction(fr *Frame, st *State, fn *ssa.Function, args []SVal,
 	key := x.prog.FuncKey(fn)
 	if c := x.prog.Contracts[key]; c != nil && !c.Inline {
 		x.usedContracts[key] = true
+		// closures: the callee's captured variables are visible to its contract under their names
+		if n := len(fn.Params); len(fn.FreeVars) > 0 && len(args) >= n+len(fn.FreeVars) {
+			names := map[string]EV{}
+			for i, fvv := range fn.FreeVars {
+				b := args[n+i]
+				if pv, ok := b.(*PtrV); ok {
+					names[fvv.Name()] = EV{V: x.load(st, pv, pv.Elem), T: pv.Elem}
+				} else {
+					names[fvv.Name()] = EV{V: b, T: fvv.Type()}
+				}
+			}
+			if x.calleeFree == nil {
+				x.calleeFree = map[*Contract]map[string]EV{}
+			}
+			x.calleeFree[c] = names
+			args = args[:n]
+		}
 		x.applyContract(fr, st, c, key, nil, args, fn.Signature, pos, k)
 		return
 	}
@@ -308,6 +325,20 @@ func (x *Exec) evalCtxFor(c *Contract, st, old *State, recv SVal, args []SVal, s
 			ec.names[p.Name] = EV{V: all[i], T: pt}
 		}
 	}
+	if fv, ok := x.calleeFree[c]; ok && c != x.contract {
+		for k, v := range fv {
+			if _, shadow := ec.names[k]; !shadow {
+				ec.names[k] = v
+			}
+		}
+	}
+	if c == x.contract {
+		for k, v := range x.freeVarNames {
+			if _, shadow := ec.names[k]; !shadow {
+				ec.names[k] = v
+			}
+		}
+	}
 	for i, r := range c.Results {
 		if results != nil && i < len(results) {
 			var rt types.Type
@@ -381,7 +412,13 @@ func (x *Exec) applyContract(fr *Frame, st *State, c *Contract, key string, recv
 				}
 			}
 			if err := x.guard(fmt.Sprintf("%s:%d modifies", cl.File, cl.Line), func() {
-				x.havocLoc(st, ecMod.Eval(me), key)
+				v := ecMod.Eval(me)
+				switch v.V.(type) {
+				case *SliceV, *PtrV:
+					x.havocLoc(st, v, key)
+				default:
+					x.havocLoc(st, EV{V: ecMod.evalLoc(me)}, key)
+				}
 			}); err != nil {
 				x.contractError(err)
 				return
@@ -570,6 +607,22 @@ func (x *Exec) havocLoc(st *State, loc EV, hint string) {
 		}
 		if strings.HasSuffix(types.TypeString(v.Elem, nil), "strings.Builder") {
 			x.sbHavoc(st, v)
+			return
+		}
+		if ts := types.TypeString(v.Elem, nil); strings.HasPrefix(ts, "sync/atomic.") {
+			var vt types.Type = types.Typ[types.Int64]
+			if strings.HasSuffix(ts, "Bool") {
+				vt = types.Typ[types.Bool]
+			}
+			srt, _ := scalarSort(vt)
+			st.ghost[atomicKey(v)] = tb.Fresh("atomic.hv", srt)
+			return
+		}
+		if strings.HasSuffix(types.TypeString(v.Elem, nil), "bytes.Buffer") {
+			n := tb.Fresh("buf.len", BV(64))
+			st.Assume(tb.BVCmp("bvsle", tb.BVi(64, 0), n))
+			st.Assume(tb.BVCmp("bvslt", n, tb.BVi(64, 1<<40)))
+			x.bbSet(st, v, x.ContentBase("buf", BV(8)), n)
 			return
 		}
 		os := x.objState(st, v.Obj)
@@ -766,7 +819,13 @@ func (x *Exec) havocLoopMem(fr *Frame, b *ssa.BasicBlock, ord int, lc *LoopContr
 			}
 			if err := x.guard(fmt.Sprintf("%s:%d loop modifies", m.File, m.Line), func() {
 				ec := x.loopCtx(fr, b, st, false)
-				x.havocLoc(st, ec.Eval(me), fmt.Sprintf("L%d", ord))
+				v := ec.Eval(me)
+				switch v.V.(type) {
+				case *SliceV, *PtrV:
+					x.havocLoc(st, v, fmt.Sprintf("L%d", ord))
+				default:
+					x.havocLoc(st, EV{V: ec.evalLoc(me)}, fmt.Sprintf("L%d", ord))
+				}
 			}); err != nil {
 				x.warn("loop modifies not evaluable: %v", err)
 			}
@@ -810,8 +869,37 @@ func (x *Exec) checkLoopFrame(fr *Frame, b *ssa.BasicBlock, ord int, lc *LoopCon
 				}
 			}
 		}
+		// buffers / builders listed as locations
+		if lc != nil {
+			for _, m := range lc.Modifies {
+				for _, me := range m.Exprs {
+					me := me
+					_ = x.guard("loop modifies", func() {
+						ec := x.loopCtx(fr, b, st, false)
+						if pv, ok := ec.tryEvalPtr(me); ok {
+							listed[fmt.Sprintf("sb:%d", pv.Obj.ID)] = true
+							listed[bbKey(pv)] = true
+							listed[atomicKey(pv)] = true
+						} else {
+							loc := ec.evalLoc(me)
+							listed[bbKey(loc)] = true
+							listed[atomicKey(loc)] = true
+						}
+					})
+				}
+			}
+		}
 		for name, v0 := range gs {
-			if listed[name] || strings.HasPrefix(name, "sb:") {
+			if listed[name] || strings.HasPrefix(name, "crcinst:") {
+				continue
+			}
+			if strings.HasPrefix(name, "map:") {
+				continue
+			}
+			if strings.HasPrefix(name, "sb:") || strings.HasPrefix(name, "bb:") || strings.HasPrefix(name, "atomic:") {
+				if v1, ok := st.ghost[name]; ok && v1 != v0 {
+					x.addObl(st, fmt.Sprintf("%s/loop%d/frame(buffer %s is changed by the loop body but not listed in its modifies clause)", x.prog.FuncKey(fr.fn), ord, name), "frame", x.tb.False(), token.NoPos, nil)
+				}
 				continue
 			}
 			if v1, ok := st.ghost[name]; ok && v1 != v0 {
@@ -822,12 +910,43 @@ func (x *Exec) checkLoopFrame(fr *Frame, b *ssa.BasicBlock, ord int, lc *LoopCon
 			}
 		}
 	}
+	exempt := map[*Object][][]int{}
+	if lc != nil {
+		for _, m := range lc.Modifies {
+			for _, me := range m.Exprs {
+				me := me
+				if me.Op == "ident" {
+					if _, isGhost := x.ghostDecl[me.Name]; isGhost {
+						continue
+					}
+				}
+				_ = x.guard("loop modifies", func() {
+					ec := x.loopCtx(fr, b, st, false)
+					if _, isPtr := ec.tryEvalPtr(me); isPtr {
+						return
+					}
+					if loc := ec.evalLoc(me); loc != nil && !loc.Obj.Array {
+						exempt[loc.Obj] = append(exempt[loc.Obj], loc.Path)
+					}
+				})
+			}
+		}
+	}
 	for o, s0 := range snap {
 		s1, ok := st.mem[o]
 		if !ok || s1 == s0 || modified[o] {
 			continue
 		}
-		g := x.objUnchanged(o, s0, s1, nil)
+		var g *Term
+		if ps := exempt[o]; len(ps) > 0 && !o.Array {
+			a, bb := s0.Val, s1.Val
+			for _, pth := range ps {
+				bb = setPath(bb, pth, getPath(a, pth))
+			}
+			g = x.svalEq(a, bb)
+		} else {
+			g = x.objUnchanged(o, s0, s1, nil)
+		}
 		if g.IsTrue() {
 			continue
 		}
@@ -957,8 +1076,12 @@ func (x *Exec) builtin(fr *Frame, st *State, b *ssa.Builtin, cc *ssa.CallCommon,
 	case "print", "println":
 		k(st, nil)
 	case "delete":
-		x.warn("map delete not modelled")
-		st.events = append(st.events, "mapdelete")
+		// ghost size only; the key is assumed present (protocol assumption, listed)
+		if m, ok := args[0].(*OpaqueV); ok {
+			sz := x.mapSize(st, m)
+			st.ghost[fmt.Sprintf("map:%d", m.Id.id)] = tb.BVBin("bvsub", sz, tb.BVi(64, 1))
+		}
+		x.builtinModels["map delete (ghost size - 1, key assumed present)"] = true
 		k(st, nil)
 	case "min", "max":
 		a, bb := args[0].(*Term), args[1].(*Term)
@@ -1106,6 +1229,50 @@ func (x *Exec) builtinModel(fr *Frame, st *State, fn *ssa.Function, name string,
 		}
 		k(st, iv)
 		return true
+	case "errors.As":
+		model()
+		e := args[0].(*IfaceV)
+		tgt, ok := args[1].(*IfaceV)
+		if !ok || tgt.Dyn == nil {
+			break
+		}
+		pp, isPP := tgt.Dyn.(*types.Pointer)
+		tp, isP := tgt.Val.(*PtrV)
+		if !isPP || !isP {
+			break
+		}
+		T := pp.Elem() // the type looked for (e.g. *ErrorParseTCP)
+		isNil := tb.Eq(e.Tag, tb.Intc(0))
+		var direct *Term
+		if e.Dyn != nil {
+			direct = tb.Bool(types.Identical(e.Dyn, T))
+		} else {
+			direct = tb.Eq(e.Tag, x.typeTag(T))
+		}
+		// (a) the error itself has the type
+		if !direct.IsFalse() {
+			s2 := st.Clone()
+			s2.Assume(tb.Not(isNil))
+			s2.Assume(direct)
+			x.store(s2, tp, T, x.payloadFor(s2, e, T))
+			k(s2, tb.True())
+		}
+		if !direct.IsTrue() {
+			// (b) an error of that type is found further down the Unwrap chain: some non-nil value of the type
+			s3 := st.Clone()
+			s3.Assume(tb.Not(isNil))
+			s3.Assume(tb.Not(direct))
+			inner := x.symbolic(s3, T, "errors.As.target", false, 1)
+			if ip, isPtr := inner.(*PtrV); isPtr {
+				ip.IsNil = tb.False()
+			}
+			x.store(s3, tp, T, inner)
+			k(s3, tb.True())
+			// (c) not found
+			st.Assume(tb.Not(direct))
+			k(st, tb.False())
+		}
+		return true
 	case "errors.Is":
 		model()
 		k(st, x.errIs(args[0].(*IfaceV), args[1].(*IfaceV)))
@@ -1155,6 +1322,68 @@ func (x *Exec) builtinModel(fr *Frame, st *State, fn *ssa.Function, name string,
 		model()
 		st.events = append(st.events, name)
 		k(st, x.havocResult(st, fn.Signature.Results(), fn.Name()))
+		return true
+	case "(*bytes.Buffer).Write":
+		model()
+		p := args[1].(*SliceV)
+		x.bbAppend(st, args[0].(*PtrV), p)
+		k(st, &TupleV{Vals: []SVal{p.Len, &IfaceV{Tag: tb.Intc(0), Id: tb.Intc(0)}}})
+		return true
+	case "(*bytes.Buffer).Len":
+		model()
+		_, n := x.bbGet(st, args[0].(*PtrV))
+		k(st, n)
+		return true
+	case "(*bytes.Buffer).Bytes":
+		model()
+		c, n := x.bbGet(st, args[0].(*PtrV))
+		k(st, x.bbSnapshot(st, c, tb.BVi(64, 0), n, "buf.Bytes"))
+		return true
+	case "(*bytes.Buffer).Next":
+		model()
+		c, n := x.bbGet(st, args[0].(*PtrV))
+		want := args[1].(*Term)
+		x.safety(st, fr, "buffer.Next-negative("+x.srcText(pos)+")", tb.BVCmp("bvsle", tb.BVi(64, 0), want), pos)
+		m := tb.Ite(tb.BVCmp("bvslt", want, n), want, n)
+		res := x.bbSnapshot(st, c, tb.BVi(64, 0), m, "buf.Next")
+		rest := tb.BVBin("bvsub", n, m)
+		nc := x.CopyC(x.ContentConst(tb.BVi(8, 0)), tb.BVi(64, 0), c, m, rest)
+		x.bbSet(st, args[0].(*PtrV), nc, rest)
+		k(st, res)
+		return true
+	case "(*bytes.Buffer).Reset":
+		model()
+		x.bbSet(st, args[0].(*PtrV), x.ContentConst(tb.BVi(8, 0)), tb.BVi(64, 0))
+		k(st, nil)
+		return true
+	case "(*sync/atomic.Int64).Load", "(*sync/atomic.Bool).Load", "(*sync/atomic.Int32).Load":
+		model()
+		k(st, x.atomicGet(st, args[0].(*PtrV), fn.Signature.Results().At(0).Type()))
+		return true
+	case "(*sync/atomic.Int64).Add", "(*sync/atomic.Int32).Add":
+		model()
+		cur := x.atomicGet(st, args[0].(*PtrV), fn.Signature.Results().At(0).Type())
+		nv := tb.BVBin("bvadd", cur, args[1].(*Term))
+		st.ghost[atomicKey(args[0].(*PtrV))] = nv
+		k(st, nv)
+		return true
+	case "(*sync/atomic.Int64).Store", "(*sync/atomic.Bool).Store", "(*sync/atomic.Int32).Store":
+		model()
+		st.ghost[atomicKey(args[0].(*PtrV))] = args[1]
+		k(st, nil)
+		return true
+	case "context.WithValue":
+		model()
+		r := x.symbolic(st, fn.Signature.Results().At(0).Type(), "ctx.WithValue", false, 0).(*IfaceV)
+		st.Assume(tb.Not(tb.Eq(r.Tag, tb.Intc(0))))
+		k(st, r)
+		return true
+	case "context.WithCancel", "context.WithTimeout":
+		model()
+		r := x.symbolic(st, fn.Signature.Results().At(0).Type(), "ctx.WithCancel", false, 0).(*IfaceV)
+		st.Assume(tb.Not(tb.Eq(r.Tag, tb.Intc(0))))
+		cf := &FuncV{IsNil: tb.False(), Id: tb.Fresh("cancel.fid", SInt), Sig: fn.Signature.Results().At(1).Type().Underlying().(*types.Signature), Name: "context.CancelFunc"}
+		k(st, &TupleV{Vals: []SVal{r, cf}})
 		return true
 	case "(*strings.Builder).Grow":
 		model()
@@ -1321,4 +1550,131 @@ func (x *Exec) assumeAbstractEnsures(st *State, c *Contract, args []SVal, sig *t
 		cl := cl
 		_ = x.guard("abstract ensures", func() { st.Assume(ec.Bool(cl.Expr)) })
 	}
+}
+
+// ---------- bytes.Buffer ghost model: unread content (array from index 0) and its length, per buffer location.
+// Slices returned by Bytes()/Next() are modelled as snapshots (valid while the buffer is not modified, which is
+// how the repository uses them).
+
+type bbGhost struct {
+	c *Content
+	n *Term
+}
+
+func bbKey(p *PtrV) string { return fmt.Sprintf("bb:%d%s", p.Obj.ID, pathKey(p.Path)) }
+
+func (x *Exec) bbGet(st *State, p *PtrV) (*Content, *Term) {
+	if g, ok := st.ghost[bbKey(p)]; ok {
+		bg := g.(*bbGhost)
+		return bg.c, bg.n
+	}
+	tb := x.tb
+	var c *Content
+	var n *Term
+	if p.Obj.Pre {
+		// buffer of a pre-existing object: arbitrary content, the same initial value in every state of this run
+		if x.bbInit == nil {
+			x.bbInit = map[string]*bbGhost{}
+		}
+		ini, ok := x.bbInit[bbKey(p)]
+		if !ok {
+			ini = &bbGhost{c: x.ContentBase("buf", BV(8)), n: tb.Fresh("buf.len", BV(64))}
+			x.bbInit[bbKey(p)] = ini
+		}
+		c, n = ini.c, ini.n
+		st.Assume(tb.BVCmp("bvsle", tb.BVi(64, 0), n))
+		st.Assume(tb.BVCmp("bvslt", n, tb.BVi(64, 1<<40)))
+		st.ghost[bbKey(p)] = ini
+		return c, n
+	} else {
+		c = x.ContentConst(tb.BVi(8, 0))
+		n = tb.BVi(64, 0)
+	}
+	st.ghost[bbKey(p)] = &bbGhost{c: c, n: n}
+	return c, n
+}
+
+func (x *Exec) bbSet(st *State, p *PtrV, c *Content, n *Term) {
+	st.ghost[bbKey(p)] = &bbGhost{c: c, n: n}
+}
+
+func (x *Exec) bbAppend(st *State, p *PtrV, s *SliceV) {
+	c, n := x.bbGet(st, p)
+	nc := c
+	if !s.Obj.Dummy {
+		src := x.objState(st, s.Obj).Leaves[""]
+		nc = x.CopyC(c, n, src, s.Off, s.Len)
+	}
+	x.bbSet(st, p, nc, x.tb.BVBin("bvadd", n, s.Len))
+}
+
+func (x *Exec) bbSnapshot(st *State, c *Content, off, n *Term, name string) *SliceV {
+	tb := x.tb
+	o := x.newObject(name, true, types.Typ[types.Uint8], false)
+	st.mem[o] = &ObjState{Leaves: map[string]*Content{"": x.CopyC(x.ContentConst(tb.BVi(8, 0)), tb.BVi(64, 0), c, off, n)}, ALen: n}
+	return &SliceV{Obj: o, IsNil: tb.False(), Off: tb.BVi(64, 0), Len: n, Cap: n, Elem: types.Typ[types.Uint8]}
+}
+
+// bbUnchanged: the buffer's unread content is the same in two states (only provable when it was never touched).
+func (x *Exec) bbUnchanged(s0, s1 *State, key string) *Term {
+	g1, _ := s1.ghost[key].(*bbGhost)
+	g0, ok := s0.ghost[key].(*bbGhost)
+	if !ok || g0 == nil {
+		g0 = x.bbInit[key] // materialised lazily after entry
+	}
+	if g0 == nil || g1 == nil {
+		return x.tb.False()
+	}
+	if g0 == g1 {
+		return x.tb.True()
+	}
+	k := x.tb.Fresh("bbframe.k", BV(64))
+	return x.tb.And(x.tb.Eq(g0.n, g1.n), x.tb.Eq(x.Select(g0.c, k), x.Select(g1.c, k)))
+}
+
+// ---------- atomics and maps as ghost values (sequential semantics; no schedule is modelled) ----------
+
+func atomicKey(p *PtrV) string { return fmt.Sprintf("atomic:%d%s", p.Obj.ID, pathKey(p.Path)) }
+
+func (x *Exec) atomicGet(st *State, p *PtrV, t types.Type) *Term {
+	key := atomicKey(p)
+	if v, ok := st.ghost[key]; ok {
+		return v.(*Term)
+	}
+	if x.atomicInit == nil {
+		x.atomicInit = map[string]*Term{}
+	}
+	v, ok := x.atomicInit[key]
+	if !ok {
+		srt, _ := scalarSort(t)
+		if p.Obj.Pre {
+			v = x.tb.Fresh("atomic", srt)
+		} else if srt.K == KBool {
+			v = x.tb.False()
+		} else {
+			v = x.tb.BVi(srt.W, 0)
+		}
+		x.atomicInit[key] = v
+	}
+	st.ghost[key] = v
+	return v
+}
+
+func (x *Exec) mapSize(st *State, m *OpaqueV) *Term {
+	key := fmt.Sprintf("map:%d", m.Id.id)
+	if v, ok := st.ghost[key]; ok {
+		return v.(*Term)
+	}
+	if x.mapInit == nil {
+		x.mapInit = map[string]*Term{}
+	}
+	v, ok := x.mapInit[key]
+	if !ok {
+		v = x.tb.Fresh("mapsize", BV(64))
+		x.mapInit[key] = v
+	}
+	st.Assume(x.tb.BVCmp("bvsle", x.tb.BVi(64, 0), v))
+	st.Assume(x.tb.BVCmp("bvslt", v, x.tb.BVi(64, 1<<40)))
+	st.ghost[key] = v
+	return v
 }
